@@ -8,3 +8,6 @@ var succRe = regexp.MustCompile(`succeeded\("([^"]+)"\)`)
 
 // called("F"): the contracted function F has been called on this path.
 var calledRe = regexp.MustCompile(`called\("([^"]+)"\)`)
+
+// calls("F"): number of calls of the contracted function F on this path.
+var callsRe = regexp.MustCompile(`calls\("([^"]+)"\)`)
